@@ -8,7 +8,10 @@ use itertools::Itertools;
 use crate::{
     LowRankSettings, Math, NutsError, SamplerStats,
     dynamics::Point,
-    transform::{LowRankMassMatrix, MassMatrixAdaptStrategy, adapt::diagonal::DrawGradCollector},
+    transform::{
+        LowRankMassMatrix, MassMatrixAdaptStrategy, Transformation,
+        adapt::diagonal::DrawGradCollector,
+    },
 };
 
 #[derive(Debug)]
@@ -333,8 +336,11 @@ impl<M: Math> MassMatrixAdaptStrategy<M> for LowRankMassMatrixStrategy {
         if <LowRankMassMatrixStrategy as MassMatrixAdaptStrategy<M>>::current_count(self) < 3 {
             return false;
         }
+        // `update` leaves the matrix untouched if the estimate is degenerate or not finite:
+        // only report a change if there was one.
+        let id_before = mass_matrix.transformation_id(math);
         self.update(math, mass_matrix);
-        true
+        mass_matrix.transformation_id(math) != id_before
     }
 }
 
